@@ -20,6 +20,7 @@ func init() {
 			"GetDataForSigning and flows into a field of FrontendTransaction - a distinct one per transaction field, with a JSON tag that is not `-` and a JSON name that is unique - and that struct is what is " +
 			"marshalled and returned (a new protobuf field creates a new obligation automatically); FrontendTransaction.Signature is left empty. InterceptedTransaction.verifySig passes to the signer, with the " +
 			"transaction's own Signature, the bytes returned by GetDataForSigning of that same transaction (or their hash under the sign-with-hash option), and the key derived from that transaction's sender. " +
+			"The flow of each field into the DTO passes conversions and encoder calls only: no arithmetic/bit operation, bounded slice or narrowing integer conversion (they would map different field values to the same signed bytes). " +
 			"Not decided: injectivity of the encoders (assumed), signature scheme.",
 		Assume: []string{"bech32 encoding of fixed-length addresses, big.Int.String and JSON encoding of valid UTF-8 / base64 byte strings are injective"},
 		Run:    runC24,
@@ -141,6 +142,13 @@ func runC24(c *core.Ctx) {
 			c.Fail("C24/field-covered-by-signature", name, fn.Pos(), "FrontendTransaction."+target.Name()+" is excluded from JSON (`json:\"-\"`)")
 			continue
 		}
+		// the whole field is covered: on the way into the DTO the value passes conversions and
+		// encoder calls only - no arithmetic/bit operation and no bounded slice that would map two
+		// different field values to the same signed bytes
+		if narrowed := narrowingOnPath(stores[target], tf); narrowed != "" {
+			c.Fail("C24/field-covered-by-signature", name, fn.Pos(), "field "+tf.Name()+" reaches FrontendTransaction."+target.Name()+" only through "+narrowed+": transactions that differ in the discarded part of the field have the same signed bytes, so a signature stays valid when that part is altered")
+			continue
+		}
 		c.Pass("C24/field-covered-by-signature", name, fn.Pos(), fmt.Sprintf("flows into FrontendTransaction.%s (json %q)", target.Name(), jsonName[target]))
 	}
 	// every DTO field is filled unconditionally: a store that does not dominate the Marshal call covers the field only for some transactions
@@ -219,4 +227,106 @@ func runC24(c *core.Ctx) {
 		}
 		c.Floor("C24/signed-bytes-are-the-dto", 4)
 	}
+}
+
+// narrowingOnPath walks from a DTO field value back to the loads of the transaction field tf and
+// reports the first lossy operation met on every such path ("" when some path is conversion-only).
+func narrowingOnPath(v ssa.Value, tf *types.Var) string {
+	type res struct {
+		reaches bool
+		lossy   string
+	}
+	seen := map[ssa.Value]res{}
+	var walk func(x ssa.Value, depth int) res
+	walk = func(x ssa.Value, depth int) res {
+		if r, ok := seen[x]; ok {
+			return r
+		}
+		seen[x] = res{}
+		if depth > 16 {
+			return res{}
+		}
+		if _, lf := core.FieldLoad(x); lf == tf {
+			seen[x] = res{reaches: true}
+			return seen[x]
+		}
+		var ops []ssa.Value
+		lossyHere := ""
+		switch t := x.(type) {
+		case *ssa.BinOp:
+			ops = []ssa.Value{t.X, t.Y}
+			lossyHere = "the operation `" + t.Op.String() + "`"
+		case *ssa.Slice:
+			ops = []ssa.Value{t.X}
+			if t.Low != nil || t.High != nil {
+				lossyHere = "a bounded slice expression"
+			}
+		case *ssa.UnOp:
+			ops = []ssa.Value{t.X}
+		case *ssa.Convert:
+			ops = []ssa.Value{t.X}
+			// integer narrowing
+			if bt, ok := t.Type().Underlying().(*types.Basic); ok {
+				if bs, ok2 := t.X.Type().Underlying().(*types.Basic); ok2 && bt.Info()&types.IsInteger != 0 && bs.Info()&types.IsInteger != 0 {
+					if sizeOfBasic(bt) < sizeOfBasic(bs) {
+						lossyHere = "a narrowing integer conversion"
+					}
+				}
+			}
+		case *ssa.ChangeType:
+			ops = []ssa.Value{t.X}
+		case *ssa.MakeInterface:
+			ops = []ssa.Value{t.X}
+		case *ssa.Phi:
+			ops = t.Edges
+		case *ssa.Call:
+			ops = append(ops, t.Call.Args...)
+			if t.Call.IsInvoke() {
+				ops = append(ops, t.Call.Value)
+			}
+		case *ssa.Extract:
+			ops = []ssa.Value{t.Tuple}
+		case *ssa.FieldAddr:
+			ops = []ssa.Value{t.X}
+		}
+		out := res{}
+		clean := false
+		for _, o := range ops {
+			r := walk(o, depth+1)
+			if !r.reaches {
+				continue
+			}
+			out.reaches = true
+			if r.lossy == "" && lossyHere == "" {
+				clean = true
+			} else if out.lossy == "" {
+				out.lossy = r.lossy
+				if out.lossy == "" {
+					out.lossy = lossyHere
+				}
+			}
+		}
+		if clean {
+			out.lossy = ""
+		}
+		seen[x] = out
+		return out
+	}
+	r := walk(v, 0)
+	if !r.reaches {
+		return ""
+	}
+	return r.lossy
+}
+
+func sizeOfBasic(b *types.Basic) int {
+	switch b.Kind() {
+	case types.Int8, types.Uint8:
+		return 1
+	case types.Int16, types.Uint16:
+		return 2
+	case types.Int32, types.Uint32:
+		return 4
+	}
+	return 8
 }
